@@ -67,6 +67,7 @@ def _gap_has_empty_line_offsets(
     source_bytes: bytes, start: int, end: int, first_newline: int | None = None
 ) -> bool:
     """Check for blank lines using offsets to avoid slice allocations."""
+    end = min(end, len(source_bytes))
     if first_newline is None:
         first_newline = source_bytes.find(b"\n", start, end)
         if first_newline == -1:
